@@ -100,7 +100,7 @@ mech("nested-annotations-ignored",
 mech("disc-oneof-variant-codec",
  "discriminated oneof (oneof_config): variants are encoded/decoded with encoding/json instead of protojson, so inside a variant 64-bit integers are numbers, keys are Go/snake names, enums are numbers and well-known types lose their JSON form; contract-form variants are rejected",
  [("C05","json/*/ctx=disc_nested/*",J5,None,"*/disc"),("C05","json/oneof_nested/*",J5,None,"*/disc"),("C04","codec/oneof_nested/*",["roundtrip-changed","decode-own-output","canon-changed","canon-decode-error"],None),
-  ("C06","oasjson/oneof_nested/*",["wire-json-violates-openapi"],None),("C01","deliver/body/oneof_nested/*",["request-changed","response-changed","handler-not-reached","client-error"],None)])
+  ("C06","oasjson/oneof_nested/*",["wire-json-violates-openapi"],None),("C06","oasjson/rules-in/oneof-nested-variant/*",["wire-json-violates-openapi"],"role:oneOf*"),("C01","deliver/body/oneof_nested/*",["request-changed","response-changed","handler-not-reached","client-error"],None)])
 
 mech("unwrap-empty-list-null",
  "unwrap: an empty unwrapped list is encoded as JSON null instead of []",
@@ -108,8 +108,8 @@ mech("unwrap-empty-list-null",
 
 mech("unwrap-of-root-unwrap",
  "a repeated unwrap field whose element type is itself a root-unwrap (map) message: emitted *_unwrap.pb.go does not compile",
- [("C05","json/unwrap/{root-map,combined}/message",["compile"],None),("C13","gobuild/feature/unwrap/{root-map,combined}/message/ctx/*",["compile"],None),
-  ("C07","tstype/unwrap/{root-map,combined}/message",["compile"],None),("C06","oasjson/unwrap/{root-map,combined}/message",["compile"],None)])
+ [("C05","json/unwrap/{root-map,combined}/message*",["compile"],None),("C13","gobuild/feature/unwrap/{root-map,combined}/message/ctx/*",["compile"],None),("C13","gobuild/feature/unwrap/{root-map,combined}/message/nested-after-map/ctx/*",["compile"],None),
+  ("C07","tstype/unwrap/{root-map,combined}/message*",["compile"],None),("C06","oasjson/unwrap/{root-map,combined}/message*",["compile"],None)])
 
 mech("body-bind-resets-url-fields",
  "Go server binds path/query parameters first and then unmarshals the body into the same message (protojson/proto Unmarshal reset it): with a non-empty body every URL-bound field that the body does not repeat is lost",
@@ -143,7 +143,7 @@ mech("nullable-enum-schema",
 
 mech("oneof-flatten-schema",
  "flattened discriminated oneof: schema requires a variant (oneOf) and camelCase keys while the server sends snake_case child keys and nothing when no variant is set",
- [("C06","oasjson/oneof_flatten/*",["wire-json-violates-openapi"],None)])
+ [("C06","oasjson/oneof_flatten/*",["wire-json-violates-openapi"],None),("C06","oasjson/rules-in/oneof-flatten-variant/*@{default,no-variant}",["wire-json-violates-openapi"],"role:oneOf*")])
 
 mech("ts-wkt-as-object",
  "TypeScript types well-known types other than Timestamp (Duration, …) as objects of their proto fields while the wire uses the proto3 JSON string form",
